@@ -114,6 +114,9 @@ def runCli (env : Env) (parts : List String) : Resp :=
   | ["cli.sign_tx", mn, pw, sel, j, so, allow] => match acctArg mn pw sel, unhex j with
     | some a, some j => cliOut (Cli.signTx X a j (so == "1") (allow == "1"))
     | _, _ => .harness "bad arg"
+  | ["cli.prefix_parse", pre] => match utf8Arg pre with
+    | some pre => ofRes (Cli.parsePrefix pre) fun _ => []
+    | none => .harness "bad arg"
   | ["cli.new", len, stream] => match utf8Arg len, streamArg stream with
     | some len, some st =>
       let oracle : Nat → Option Bytes := fun k => match st with
@@ -457,6 +460,13 @@ def judgeCli (env : Env) (parts : List String) (resp : String) : Judge.Verdict :
     | none => .skip
   | ["cli.hex_decode", d] => match unhex d with
     | some b => Judge.judgeHexDecode b resp
+    | none => .skip
+  | ["cli.prefix_parse", pre] =>
+    match utf8Arg pre with
+    | some pre =>
+      let t := String.ofList pre
+      let isHex := t.startsWith "0x" && ((t.drop 2).toString.all fun c => c.isDigit || ('a' ≤ c && c ≤ 'f') || ('A' ≤ c && c ≤ 'F'))
+      Judge.expect (resp == (if isHex then "ok" else "err")) "a vanity prefix is accepted iff it is 0x followed by hexadecimal digits (either case, even or odd count)"
     | none => .skip
   | ["cli.new", len, stream] =>
     match utf8Arg len, streamArg stream with
